@@ -23,7 +23,7 @@ func VerifC12Cursor() {
 	block := bstream.NewBlockRef("bb", blockNum)
 	lib := bstream.NewBlockRef("ll", libNum)
 	var head bstream.BlockRef = block
-	switch sym.Choice("head-kind", 3) {
+	switch sym.Choice("head-kind", sym.Param("HEADKINDS", 3)) {
 	case 1:
 		head = bstream.NewBlockRef("hh", headNum)
 	case 2:
@@ -58,7 +58,34 @@ func VerifC12Cursor() {
 	}
 	noHead := func() (uint64, error) { return 0, errors.New("unused") }
 
-	start, resolved, undo, err := resolveStartBlockNum(context.Background(), req, resolve, noHead)
+	// through the real BuildRequestDetails, so that the hand-off computed for the
+	// resolved start block cooperates with the cursor resolution
+	req.ProductionMode = true
+	libKnown := true
+	if sym.Param("ALLMODES", 0) == 1 {
+		req.ProductionMode = sym.Choice("production", 2) == 1
+		libKnown = sym.Choice("lib-known", 2) == 1
+	}
+	finalNum := sym.U64("final-block")
+	sym.Assume(finalNum < 300)
+	getLib := func() (uint64, error) {
+		if !libKnown {
+			return 0, errors.New("no final block")
+		}
+		return finalNum, nil
+	}
+	details, undo, err := BuildRequestDetails(context.Background(), req, getLib, resolve, noHead, 10)
+	if err != nil && req.ProductionMode && !libKnown && stop == 0 {
+		return // production without any finality information and no stop block: unresolvable, whatever the cursor
+	}
+	var start uint64
+	resolved := ""
+	belowHandoff := false
+	if err == nil {
+		start = details.ResolvedStartBlockNum
+		resolved = details.ResolvedCursor
+		belowHandoff = details.ResolvedStartBlockNum < details.LinearHandoffBlockNum
+	}
 	sym.Observe("start", start)
 
 	if stop > 0 && stop < blockNum {
@@ -97,8 +124,10 @@ func VerifC12Cursor() {
 		}
 		sym.Assert(undo.LastValidBlock.Number == junctionNum && undo.LastValidBlock.Id == "jj", "undo-signal-designates-the-junction")
 		sym.Assert(start == junctionNum+1, "restart-right-after-the-junction")
-		sym.Assert(undo.LastValidCursor == resolved, "undo-cursor-is-the-resolved-cursor")
-		back, derr := bstream.CursorFromOpaque(resolved)
+		if !belowHandoff {
+			sym.Assert(undo.LastValidCursor == resolved, "undo-cursor-is-the-resolved-cursor")
+		}
+		back, derr := bstream.CursorFromOpaque(undo.LastValidCursor)
 		sym.Assert(derr == nil, "resolved-cursor-decodes")
 		if derr == nil {
 			sym.Assert(back.Block.Num() == junctionNum && back.Block.ID() == "jj", "resolved-cursor-designates-the-junction")
@@ -112,6 +141,10 @@ func VerifC12Cursor() {
 		sym.Assert(start == blockNum, "undo-step-cursor-restarts-at-its-block")
 	} else {
 		sym.Assert(start == blockNum+1, "new-step-cursor-restarts-after-its-block")
+	}
+	if belowHandoff {
+		sym.Assert(resolved == "", "cursor-dropped-below-the-hand-off")
+		return
 	}
 	back, derr := bstream.CursorFromOpaque(resolved)
 	sym.Assert(derr == nil, "kept-cursor-decodes")
